@@ -42,6 +42,10 @@ use ttv::*;
 const P_MS: u64 = 10; // tick period = T/4
 const T_MS: u64 = 40; // udp_connections_timeout
 const NFLOWS: usize = 5;
+/// the largest UDP payload the loopback sockets carry (the forwarder's read buffer has this size);
+/// through the SOCKS5 relay the RFC 1928 header (10 octets, IPv4) comes off
+const MAX_DIRECT: usize = 65507;
+const MAX_SOCKS: usize = 65497;
 
 fn ev(name: &str, fields: String) {
     verif::emit(name, format_args!("{}", fields));
@@ -95,13 +99,13 @@ impl Server {
     }
 
     /// Receive everything that is waiting; one PeerGot event per datagram
-    fn drain(&mut self) {
+    fn drain(&mut self, short: &mut VecDeque<Short>) {
         let Some(s) = &self.sock else { return };
-        let mut buf = [0u8; 2048];
+        let mut buf = vec![0u8; 65536];
         loop {
             match s.recv_from(&mut buf) {
                 Ok((n, from)) => {
-                    let (f, id) = parse_payload(&buf[..n]);
+                    let (f, id) = identify(&buf[..n], short);
                     self.seen.insert(f, from);
                     self.rx += 1;
                     ev("PeerGot", format!("\"a\":\"{}\",\"f\":{},\"id\":{},\"n\":{}", self.name, f, id, n));
@@ -119,13 +123,54 @@ fn payload(kind: char, f: usize, id: u64) -> Bytes {
     Bytes::from(format!("{}{}:{}:{}", kind, f, id, "x".repeat(pad)).into_bytes())
 }
 
+/// The payload-length dimension: empty, one octet, typical, and the largest datagram the sockets
+/// carry (`max`), chosen by the datagram's number. An empty or one-octet payload cannot name its
+/// flow and number: the harness identifies it by order (see `Short`).
+fn payload_sized(kind: char, f: usize, id: u64, max: usize) -> Bytes {
+    match id % 8 {
+        2 => Bytes::new(),
+        5 => Bytes::from_static(b"z"),
+        7 => {
+            let mut v = format!("{}{}:{}:", kind, f, id).into_bytes();
+            v.resize(max, b'x');
+            Bytes::from(v)
+        }
+        _ => payload(kind, f, id),
+    }
+}
+
+/// (flow, number, length) of a datagram whose payload is too short to carry them
+type Short = (usize, u64, usize);
+
+fn parse_payload_opt(b: &[u8]) -> Option<(usize, u64)> {
+    if b.len() < 4 {
+        return None;
+    }
+    let head = &b[..b.len().min(40)];
+    let s = std::str::from_utf8(head).ok()?;
+    let mut it = s[1..].split(':');
+    let f = it.next()?.parse().ok()?;
+    let id = it.next()?.parse().ok()?;
+    Some((f, id))
+}
+
 fn parse_payload(b: &[u8]) -> (usize, u64) {
-    let s = std::str::from_utf8(b).unwrap_or("?0:0");
-    let s = &s[1..];
-    let mut it = s.split(':');
-    let f = it.next().and_then(|x| x.parse().ok()).unwrap_or(0);
-    let id = it.next().and_then(|x| x.parse().ok()).unwrap_or(0);
-    (f, id)
+    parse_payload_opt(b).unwrap_or((0, 0))
+}
+
+/// Identify a received datagram: by its payload, or - empty / one octet - as the oldest datagram of
+/// that length that is known to be on its way here
+fn identify(b: &[u8], short: &mut VecDeque<Short>) -> (usize, u64) {
+    if let Some(x) = parse_payload_opt(b) {
+        return x;
+    }
+    match short.iter().position(|e| e.2 == b.len()) {
+        Some(i) => {
+            let e = short.remove(i).unwrap();
+            (e.0, e.1)
+        }
+        None => (0, 0),
+    }
 }
 
 struct Net {
@@ -207,6 +252,9 @@ struct World {
     stalled: bool,
     /// payload bytes the downstream sink accepted
     client_bytes: u64,
+    /// replies the peers have sent, by label (peer, client source), oldest first: an empty or
+    /// one-octet reply handed to the sink is the oldest of that label and length
+    replies: Vec<(SocketAddr, SocketAddr, Short)>,
 }
 
 type Shared = Arc<Mutex<World>>;
@@ -237,8 +285,20 @@ impl VDatagramSource for Src {
 #[async_trait]
 impl VDatagramSink for Snk {
     async fn write(&mut self, d: VDatagram) -> io::Result<bool> {
-        let (f, id) = parse_payload(&d.payload);
         let mut g = self.0.lock().unwrap();
+        let (f, id) = match parse_payload_opt(&d.payload) {
+            Some((f, id)) => {
+                g.replies.retain(|r| r.2 .1 != id);
+                (f, id)
+            }
+            None => match g.replies.iter().position(|r| r.0 == d.source && r.1 == d.destination && r.2 .2 == d.payload.len()) {
+                Some(i) => {
+                    let r = g.replies.remove(i);
+                    (r.2 .0, r.2 .1)
+                }
+                None => (0, 0),
+            },
+        };
         let sent = !g.stalled;
         if sent {
             g.client_bytes += d.payload.len() as u64;
@@ -319,6 +379,12 @@ struct Run<'a> {
     next_id: u64,
     skipped: u64,
     problems: Vec<(String, String)>,
+    /// client datagrams in the order they were injected = the order the left pipe takes them
+    injected: VecDeque<Short>,
+    /// the datagram the left pipe is processing (set by its FlowLookup line)
+    cur: Option<Short>,
+    /// per peer: empty / one-octet datagrams the forwarder reported as sent and the peer has not read yet
+    sent_short: HashMap<String, VecDeque<Short>>,
 }
 
 fn field<'v>(v: &'v Value, k: &str) -> &'v str {
@@ -340,6 +406,11 @@ impl<'a> Run<'a> {
                     }
                     "SockClose" if v["found"] == true => {
                         let k = if field(&v, "cause") == "error" { key } else { (key.1, key.0) };
+                        // replies still waiting in the closed socket are gone with it
+                        if k.1 != "U" {
+                            let (cs, pd) = (self.net.addr_of(&k.0), self.net.addr_of(&k.1));
+                            self.world.lock().unwrap().replies.retain(|r| !(r.0 == pd && r.1 == cs));
+                        }
                         self.live.remove(&k);
                         for s in self.net.servers.iter_mut() {
                             if s.name == k.1 {
@@ -350,12 +421,18 @@ impl<'a> Run<'a> {
                             }
                         }
                     }
+                    "FlowLookup" => self.cur = self.injected.pop_front(),
                     "SinkWrite" => {
                         if v["ok"] == true {
                             let name = key.1.clone();
                             if let Some(s) = self.net.servers.iter().find(|s| s.name == name) {
                                 if s.up() {
                                     *self.expect_rx.entry(s.name).or_insert(0) += 1;
+                                    if let Some(c) = self.cur {
+                                        if c.2 < 4 {
+                                            self.sent_short.entry(name).or_default().push_back(c);
+                                        }
+                                    }
                                 }
                             }
                         }
@@ -398,10 +475,11 @@ impl<'a> Run<'a> {
             iters += 1;
             self.poll_pipe();
             tokio::task::yield_now().await; // lets the I/O driver run without moving the paused clock
+            let n0 = self.pump(); // the hook lines first: they say which short datagrams are on their way
             for s in self.net.servers.iter_mut() {
-                s.drain();
+                s.drain(self.sent_short.entry(s.name.to_string()).or_default());
             }
-            let n = self.pump();
+            let n = n0 + self.pump();
             let left_busy = self.fut.is_some() && {
                 let g = self.world.lock().unwrap();
                 !g.inq.is_empty() || !g.src_waiting
@@ -450,13 +528,14 @@ impl<'a> Run<'a> {
         let (s, d) = self.net.flow(f);
         let id = self.next_id;
         self.next_id += 1;
-        let body = payload('q', f, id);
+        let body = payload_sized('q', f, id, MAX_DIRECT);
         ev("ClientDgram", format!("\"f\":{},\"id\":{},\"n\":{}", f, id, body.len()));
+        self.injected.push_back((f, id, body.len()));
         self.world.lock().unwrap().inq.push_back(VDatagram { source: s, destination: d, payload: body });
     }
 
     async fn apply(&mut self, op: &Op) {
-        if self.fut.is_none() {
+        if self.fut.is_none() || !self.problems.is_empty() {
             return;
         }
         match op {
@@ -477,8 +556,12 @@ impl<'a> Run<'a> {
                     (true, Some(to), true) => {
                         let id = self.next_id;
                         self.next_id += 1;
-                        let body = payload('r', *f, id);
+                        let body = payload_sized('r', *f, id, MAX_DIRECT);
                         ev("PeerReply", format!("\"f\":{},\"id\":{},\"n\":{}", f, id, body.len()));
+                        {
+                            let (cs, pd) = self.net.flow(*f);
+                            self.world.lock().unwrap().replies.push((pd, cs, (*f, id, body.len())));
+                        }
                         let srv = self.net.server(dn);
                         let _ = srv.sock.as_ref().unwrap().send_to(&body, to);
                         self.settle(Some((id, (sn.to_string(), dn.to_string())))).await;
@@ -510,7 +593,9 @@ impl<'a> Run<'a> {
                     self.skipped += 1;
                     return;
                 }
-                self.net.server_mut(a).drain();
+                let q = self.sent_short.entry(a.to_string()).or_default();
+                self.net.server_mut(a).drain(q);
+                q.clear();
                 self.net.server_mut(a).set_down();
                 ev("Down", format!("\"a\":\"{}\"", a));
                 self.settle(None).await;
@@ -585,7 +670,7 @@ struct Outcome {
 async fn run_one(net: &mut Net, ops: &[Op]) -> Outcome {
     for s in net.servers.iter_mut() {
         s.set_up();
-        s.drain();
+        s.drain(&mut VecDeque::new());
         s.seen.clear();
         s.rx = 0;
     }
@@ -626,6 +711,9 @@ async fn run_one(net: &mut Net, ops: &[Op]) -> Outcome {
         next_id: 1,
         skipped: 0,
         problems: Vec::new(),
+        injected: VecDeque::new(),
+        cur: None,
+        sent_short: HashMap::new(),
     };
     run.settle(None).await;
     run.obs();
@@ -847,7 +935,13 @@ fn main() {
         plans.push((json!({"from": "file", "ops": v["ops"]}), ops));
     }
 
+    let mut failed_runs = 0u64;
     for (desc, ops) in plans {
+        if failed_runs >= 4 {
+            // every such run waits out a real-time budget: a few are enough to report
+            rep.note("stopped early: four runs already failed an expectation of the harness");
+            break;
+        }
         let d2 = desc.clone();
         watchdog::enter(move || ("c07:hang".into(), "the UDP multiplexer did not return from poll".into(), d2));
         let t_run = Instant::now();
@@ -876,6 +970,9 @@ fn main() {
         if o.early_return.is_some() {
             early += 1;
         }
+        if !o.problems.is_empty() {
+            failed_runs += 1;
+        }
         for (sig, what) in &o.problems {
             let lines = o.lines.clone();
             let d = desc.clone();
@@ -898,6 +995,10 @@ fn main() {
             ("metric_out", "\"ev\":\"Metric\",\"dir\":\"out\""),
             ("metric_in", "\"ev\":\"Metric\",\"dir\":\"in\""),
             ("peer_got", "\"ev\":\"PeerGot\""),
+            ("empty_to_client", "\"n\":0,\"sent\":true"),
+            ("one_octet_to_client", "\"n\":1,\"sent\":true"),
+            ("largest_to_client", "\"n\":65507,\"sent\":true"),
+            ("largest_to_client", "\"n\":65497,\"sent\":true"),
             ("assoc_open", "\"ev\":\"AssocOpen\""),
             ("assoc_refused", "\"ev\":\"AssocOpen\",\"s\":\"a\",\"d\":\"P1\",\"ok\":false"),
             ("assoc_add_peer", "\"ev\":\"AssocAddPeer\""),
@@ -908,6 +1009,9 @@ fn main() {
             rep.count(k, o.lines.iter().filter(|l| l.contains(pat)).count() as u64);
         }
         rep.count("peer_closed_sibling_left", o.lines.iter().filter(|l| l.contains("\"ev\":\"PeerClosed\"") && l.contains("\"found\":true") && !l.contains("\"left\":0")).count() as u64);
+        rep.count("empty_to_peer", o.lines.iter().filter(|l| l.contains("\"ev\":\"PeerGot\"") && l.contains("\"n\":0")).count() as u64);
+        rep.count("largest_to_peer", o.lines.iter().filter(|l| l.contains("\"ev\":\"PeerGot\"") && (l.contains("\"n\":65507") || l.contains("\"n\":65497"))).count() as u64);
+        rep.count("empty_dns_answer", o.lines.windows(3).filter(|w| w[0].contains("\"ev\":\"ClientGot\"") && w[0].contains("\"d\":\"a\",\"f\":3") && w[0].contains("\"n\":0,") && w[2].contains("\"ev\":\"Incoming\"")).count() as u64);
         rep.count("send_errors_any", o.lines.iter().filter(|l| l.contains("\"ev\":\"SinkWrite\"") && l.contains("\"ok\":false")).count() as u64);
         if runs <= 2 || (runs % 700 == 0) {
             rep.sample(json!({"plan": desc, "events": o.lines.iter().take(40).collect::<Vec<_>>()}));
